@@ -236,6 +236,61 @@ def retention_history(kind_seq):
     return n, fails
 
 
+def retention_history_indexed():
+    """entries that DO fit the table (about 2 kB each in a 4 kB table) are inserted, referenced through the indexed
+    representation and through an indexed name -- in the same block and in later ones, text and raw mode alternating --
+    and then evicted by the next ones; every value is different. Whatever the decoder remembers about a field it
+    looked up must go when the entry goes."""
+    fails = []
+    d = hpack.Decoder(1 << 30)
+    base = deep_size(d)
+    n = 0
+    def measure(what):
+        gc.collect()
+        held = deep_size(d) - base
+        ents = list(getattr(d.header_table, 'dynamic_entries', []))
+        bound = d.header_table_size + 200 * (len(ents) + 1) + 4096
+        if held > bound:
+            fails.append({'history': -2, 'step': n, 'sig': 'retained-over-table',
+                          'text': '%s the decoder retains %d octets beyond a fresh one; table size %d with %d entries allows about %d' % (
+                              what, held, d.header_table_size, len(ents), bound)})
+    for j in range(400):
+        name = b'x-name-%06d' % j
+        val = (b'%07d,' % j) * 230            # ~1.8 kB, different every time
+        if j % 7 == 3:
+            e = huff_encode(val)
+            blk = b'\x40' + int_octets(len(name), 7) + name + int_octets(len(e), 7, 0x80) + e
+        else:
+            blk = b'\x40' + int_octets(len(name), 7) + name + int_octets(len(val), 7) + val
+        if j % 2:
+            blk += b'\xbe'                                   # the new entry, by index, in the same block
+        kind = ('bytes', 'bytearray', 'mv-bytes')[j % 3]
+        obj, owner, mut = wrap(kind, blk)
+        try:
+            d.decode(obj, raw=(j % 4 == 0))
+            d.decode(b'\xbe\xbe', raw=(j % 4 == 1))         # ... and in a later block (twice)
+            d.decode(b'\x7e\x03abc\x0f\x2f\x01z', raw=(j % 3 == 0))    # its name through an indexed name (inserted / not indexed)
+        except HPACKDecodingError:
+            pass
+        n += 3
+        del obj, owner, mut
+    measure('after %d blocks inserting, referencing and evicting 2 kB entries' % n)
+    if not fails:
+        try:
+            d.max_allowed_table_size = 1 << 16
+            d.decode(b'\x3f\xe1\xff\x03')                    # table raised to 64 KiB ...
+            for j in range(60):
+                val = (b'%07d;' % j) * 230
+                d.decode(b'\x40\x03big' + int_octets(len(val), 7) + val + b'\xbe', raw=bool(j % 2))
+            d.decode(b'\x3f\xe1\x1f')                        # ... and back to 4096: everything above it goes
+            d.decode(b'\xbe', raw=False)
+            n += 63
+        except HPACKDecodingError:
+            pass
+        measure('after the table was raised to 64 KiB, filled, referenced and lowered to 4096')
+    return n, fails
+
+
 def main():
     seed, nh = int(sys.argv[1]), int(sys.argv[2])
     out = {'evaluations': 0, 'failures': [], 'kinds': {}}
@@ -269,6 +324,9 @@ def main():
         out['failures'] += f
         hid += 1
     n, f = retention_history(['bytes', 'bytearray', 'mv-bytes'])
+    out['evaluations'] += n
+    out['failures'] += f
+    n, f = retention_history_indexed()
     out['evaluations'] += n
     out['failures'] += f
     rnd = random.Random(seed)
